@@ -1131,3 +1131,19 @@ package thrift
 //@   assert call FastRead#1 int32(vs.BE32(b, 10 + len(e.m))) == e.t
 //@   ensures ret1 == nil && ret0 == 15 + len(old(e.m)) && len(e2.m) == len(old(e.m)) && eqbytes(e2.m, 0, old(e.m), 0, len(old(e.m))) && e2.t == old(e.t)
 //@   assigns b[0:15+len(e.m)], e2.m, e2.t
+
+// Reset: a decoder that is handed new input starts at offset 0 of exactly that input (the pooled
+// constructors and Release go through Reset; sync.Pool itself is not modelled).
+//@ func BytesSkipDecoder.Reset
+//@   arith int
+//@   props C02, C08, C09
+//@   requires !isnil(p)
+//@   ensures p.n == 0 && same(p.b, b)
+//@   assigns p.n, p.b
+
+//@ func ReaderSkipDecoder.Reset
+//@   arith int
+//@   props C02, C08, C09
+//@   requires !isnil(p)
+//@   ensures p.n == 0 && same(p.r, r)
+//@   assigns p.n, p.r
